@@ -3,8 +3,10 @@
 P=$1; PATCH=$2; TIER=${3:-quick}
 cd /repo && git diff --quiet || { echo "/repo is dirty"; exit 3; }
 git -C /repo apply "$PATCH" || { echo "patch does not apply"; exit 3; }
+cp /verif/evidence/$P.json /tmp/evidence_$P.keep 2>/dev/null
 cd /verif && ./check $P --tier $TIER > /tmp/seedrun_$P.out 2>&1; rc=$?
 git -C /repo checkout -- .
+cp /tmp/evidence_$P.keep /verif/evidence/$P.json 2>/dev/null   # evidence committed must come from the unchanged tree
 grep -E "^VIOLATION|^KNOWN|^INCONCLUSIVE" /tmp/seedrun_$P.out | cut -c1-260 | head -6
 tail -1 /tmp/seedrun_$P.out | cut -c1-300
 echo "exit=$rc"
